@@ -29,15 +29,17 @@ VARIABLES l,        \* index of the next event
           hdr,      \* header of the current test (schema, cfg, transform / validity tables)
           lastObs,  \* index of the most recent obs event of this test (0 = none)
           reopened, \* a reopen happened since lastObs and no write since
-          hands     \* handle -> [q, at, store]  (evaluated, not yet collected searches)
+          hands,    \* handle -> [q, at, store]  (evaluated, not yet collected searches)
+          wpre,     \* store before the most recent write call (the pre-state of crash / fault observations)
+          wev       \* index of the most recent write event
 
-vars == <<l, store, pstore, hdr, lastObs, reopened, hands>>
+vars == <<l, store, pstore, hdr, lastObs, reopened, hands, wpre, wev>>
 
 Empty == [x \in {} |-> 0]
 NoHdr == [ev |-> "none"]
 
 Init == /\ l = 1 /\ store = Empty /\ pstore = Empty /\ hdr = NoHdr
-        /\ lastObs = 0 /\ reopened = FALSE /\ hands = Empty
+        /\ lastObs = 0 /\ reopened = FALSE /\ hands = Empty /\ wpre = Empty /\ wev = 0
 
 -----------------------------------------------------------------------------
 (* Schema helpers, from the header of the current test                     *)
@@ -98,15 +100,16 @@ Common == /\ l <= Len(Trace)
 Write(S) == /\ store' = S
             /\ reopened' = FALSE
             /\ hands' = [h \in DOMAIN hands |-> [hands[h] EXCEPT !.gone = @ \cup (DOMAIN store \ DOMAIN S)]]
+            /\ wpre' = store /\ wev' = l
             /\ UNCHANGED <<hdr, lastObs>>
 
-Pass == UNCHANGED <<store, hdr, lastObs, reopened, hands>>
+Pass == UNCHANGED <<store, hdr, lastObs, reopened, hands, wpre, wev>>
 
 Reset == /\ e.ev = "reset" /\ Common
-         /\ store' = Empty /\ hdr' = NoHdr /\ lastObs' = 0 /\ reopened' = FALSE /\ hands' = Empty
+         /\ store' = Empty /\ hdr' = NoHdr /\ lastObs' = 0 /\ reopened' = FALSE /\ hands' = Empty /\ wpre' = Empty /\ wev' = 0
 
 Hdr == /\ e.ev = "hdr" /\ Common
-       /\ hdr' = e /\ UNCHANGED <<store, lastObs, reopened, hands>>
+       /\ hdr' = e /\ UNCHANGED <<store, lastObs, reopened, hands, wpre, wev>>
 
 Put == /\ e.ev = "put" /\ Common
        /\ Write(IF e.c = "ok" THEN Upd(store, e.slot, e.after) ELSE store)
@@ -125,21 +128,30 @@ DelSearch == /\ e.ev = "delsearch" /\ Common
 
 Reopen == /\ e.ev = "reopen" /\ Common
           /\ reopened' = TRUE
-          /\ UNCHANGED <<store, hdr, lastObs, hands>>
+          /\ UNCHANGED <<store, hdr, lastObs, hands, wpre, wev>>
 
 Obs == /\ e.ev = "obs" /\ Common
        /\ lastObs' = l /\ reopened' = FALSE
-       /\ UNCHANGED <<store, hdr, hands>>
+       /\ UNCHANGED <<store, hdr, hands, wpre, wev>>
 
 Eval == /\ e.ev = "eval" /\ Common
         /\ hands' = [h \in DOMAIN hands \cup {e.h} |-> IF h = e.h THEN [q |-> e.q, c |-> e.c, len |-> e.len, S |-> store, gone |-> {}] ELSE hands[h]]
-        /\ UNCHANGED <<store, hdr, lastObs, reopened>>
+        /\ UNCHANGED <<store, hdr, lastObs, reopened, wpre, wev>>
 
 Collect == /\ e.ev = "collect" /\ Common /\ Pass
 
-Other == /\ e.ev \in {"end", "panic", "hang", "flush", "mutate", "args", "note", "switch", "tick"} /\ Common /\ Pass
+Other == /\ e.ev \in {"end", "panic", "hang", "flush", "mutate", "args", "note", "switch", "tick", "crash", "fault", "corrupt"} /\ Common /\ Pass
 
-Next == l <= Len(Trace) /\ (Reset \/ Hdr \/ Put \/ Many \/ Del \/ DelAll \/ DelSearch \/ Reopen \/ Obs \/ Eval \/ Collect \/ Other)
+\* environment: files removed / added, index entries removed, schema removed while no handle is open;
+\* the abstract map follows the FILES (that is what Repair must converge to)
+AfterDamage(S, d) ==
+  LET kept == [x \in DOMAIN S \ {d.rm[i] : i \in 1..Len(d.rm)} |-> S[x]]
+  IN [x \in DOMAIN kept \cup {d.add[i][1] : i \in 1..Len(d.add)} |->
+        IF x \in DOMAIN kept THEN kept[x] ELSE d.add[CHOOSE i \in 1..Len(d.add) : d.add[i][1] = x][2]]
+DamageEv == /\ e.ev = "damage" /\ Common
+            /\ Write(AfterDamage(store, e))
+
+Next == l <= Len(Trace) /\ (Reset \/ Hdr \/ Put \/ Many \/ Del \/ DelAll \/ DelSearch \/ Reopen \/ Obs \/ Eval \/ Collect \/ Other \/ DamageEv)
 
 Spec == Init /\ [][Next]_vars
 
@@ -271,7 +283,7 @@ Conf_C06 ==
        \* Control is judged only when nothing can be pending (an accepted async write is
        \* legitimately indexed before its file exists)
        /\ ~hdr.cfg.async => E.control = "ok"
-  /\ (E.ev = "many" /\ E.csize = 0 /\ E.c # "ok") => E.n = 0
+  /\ (E.ev = "many" /\ E.csize = 0 /\ E.c # "ok" /\ ~E.fired) => E.n = 0
 
 
 \* Limit / Reverse / One on an ordered result: an admissible prefix of the chosen order (ties in any order)
@@ -392,6 +404,124 @@ Conf_C19 ==
   At =>
   /\ E.ev = "args" => \A i \in 1..Len(E.res) : ArgOK(E.res[i], DOMAIN store = {})
   /\ E.ev = "obs" => BadRegexOK(E)
+
+-----------------------------------------------------------------------------
+(* Crash, damage and storage-fault observations.  Such an event carries the  *)
+(* sweeps of a fresh handle: obs1 after the first load, obs2 after Repair,  *)
+(* obs3 after Close and a second fresh handle; record ids refer to E.recs.  *)
+
+WithRecs(o, recs) == [x \in DOMAIN o \cup {"recs"} |-> IF x = "recs" THEN recs ELSE o[x]]
+\* what the directory holds, decoded independently of sod: slot -> record
+FM(o) == [u \in {o.dir.files[i][1] : i \in {j \in 1..Len(o.dir.files) : o.dir.files[j][3] = "ok"}} |->
+            o.recs[o.dir.files[CHOOSE i \in 1..Len(o.dir.files) : o.dir.files[i][1] = u /\ o.dir.files[i][3] = "ok"][2]]]
+Readable(o) == /\ \A i \in 1..Len(o.dir.files) : o.dir.files[i][3] = "ok"
+               /\ "schema_err" \notin DOMAIN o.dir
+\* index and files agree: every read path and every search reflects the file contents
+Agree(o, F) == "panic" \notin DOMAIN o /\ ReadsOK(o, F) /\ QueriesOK(o, F) /\ OrderOK(o, F)
+
+\* Known finding (deviation StaleIndex): a crash between the rewrite of an object file and the commit
+\* of the schema leaves the OLD indexed values of that object in the index; Control cannot see it and
+\* Repair skips the object.  G is the listing the index then reflects: indexed fields of the stale
+\* objects from the pre-state, everything else from the files.
+StaleView(F, Sm) == [u \in DOMAIN F |-> [f \in DOMAIN F[u] |->
+                       IF u \in DOMAIN Sm /\ f \in IndexedF THEN Sm[u][f] ELSE F[u][f]]]
+QueryStaleOK(qe, G, F, o) ==
+  LET q == qe[1]  c == qe[2]  items == qe[3]
+      slots == [i \in 1..Len(items) |-> items[i][1]]
+  IN WellFormedQ(q) => /\ c = "ok" /\ NoDup(slots) /\ Seq2Set(slots) = MatchesQ(G, q)
+                       /\ \A i \in 1..Len(items) : items[i][1] \in DOMAIN F => o.recs[items[i][2]] = F[items[i][1]]
+AgreeStale(o, F, Sm) ==
+  /\ "panic" \notin DOMAIN o /\ ReadsOK(o, F)
+  /\ "q" \in DOMAIN o => \A i \in 1..Len(o.q) : QueryStaleOK(o.q[i], StaleView(F, Sm), F, o)
+AgreeD(o, F, Sm) == Agree(o, F) \/ ("StaleIndex" \in Dev /\ AgreeStale(o, F, Sm))
+
+LoadReports(E_) == E_.load = "corrupted" \/ ("create" \in DOMAIN E_ /\ E_.create = "corrupted")
+LoadFine(E_)    == E_.load \in {"ok", "corrupted"} \/ (E_.load = "notfound" /\ "create" \in DOMAIN E_ /\ E_.create \in {"ok", "corrupted"})
+
+\* C05: a crash at any point is detected or harmless, and Repair converges
+CrashOK(E_, Sm, Sp) ==
+  LET o1 == WithRecs(E_.obs1, E_.recs)
+      o2 == WithRecs(E_.obs2, E_.recs)
+      o3 == WithRecs(E_.obs3, E_.recs)
+      F  == FM(o1)
+  IN /\ Readable(o1)                                                       \* no object or schema left unreadable
+     /\ 0 \notin DOMAIN F
+     \* each object entirely old or new (or, when a batch writes the same identity several times, one of the versions it was asked to write)
+     /\ \A u \in DOMAIN F : \/ (u \in DOMAIN Sm /\ F[u] = Sm[u]) \/ (u \in DOMAIN Sp /\ F[u] = Sp[u])
+                              \/ (wev > 0 /\ Trace[wev].ev = "many" /\ \E i \in 1..Len(Trace[wev].batch) :
+                                     "after" \in DOMAIN Trace[wev].batch[i] /\ Trace[wev].batch[i].slot = u /\ Trace[wev].batch[i].after = F[u])
+     /\ \A u \in DOMAIN Sm : (u \in DOMAIN Sp /\ Sm[u] = Sp[u]) => (u \in DOMAIN F /\ F[u] = Sm[u])     \* acknowledged, untouched objects intact
+     /\ \A u \in DOMAIN Sm \cap DOMAIN Sp : u \in DOMAIN F                                               \* an update never loses the object
+     /\ LoadFine(E_)
+     /\ (LoadReports(E_) \/ o1.control = "corrupted") \/ AgreeD(o1, F, Sm)    \* detected, or index and files agree
+     /\ E_.repair = "ok" /\ o2.control = "ok"
+     /\ FM(o2) = F /\ Readable(o2)                                          \* Repair touches no object file
+     /\ AgreeD(o2, F, Sm)
+     /\ E_.close = "ok" /\ E_.load3 = "ok" /\ o3.control = "ok" /\ AgreeD(o3, F, Sm)
+Conf_C05 ==
+  At => (E.ev = "crash" => CrashOK(E, wpre, store))
+
+\* C11: Control / first load report corruption iff indexed ids # file ids; Repair restores agreement
+DamageOK(E_, Sm, F) ==
+  LET o1 == WithRecs(E_.obs1, E_.recs)
+      o2 == WithRecs(E_.obs2, E_.recs)
+      o3 == WithRecs(E_.obs3, E_.recs)
+      indexed  == IF E_.rmschema THEN {} ELSE DOMAIN Sm \ {E_.unindex[i] : i \in 1..Len(E_.unindex)}
+      diverged == indexed # DOMAIN F
+  IN /\ E_.close = "ok"
+     /\ LoadFine(E_)
+     /\ LoadReports(E_) <=> diverged                  \* the first load after Open
+     /\ (o1.control = "corrupted") <=> diverged        \* Control
+     /\ o1.control \in {"ok", "corrupted"}
+     /\ FM(o1) = F /\ Readable(o1)
+     /\ ~diverged => Agree(o1, F)
+     /\ E_.repair = "ok" /\ o2.control = "ok" /\ Agree(o2, F)
+     /\ FM(o2) = F /\ Readable(o2)                     \* no object file modified or deleted
+     /\ E_.load3 = "ok" /\ o3.control = "ok" /\ Agree(o3, F)
+Conf_C11 ==
+  At => (E.ev = "damage" => DamageOK(E, pstore, store))
+
+\* C06 (storage faults): the state is unchanged, or the divergence is reported and Repair restores it
+\* the state the interrupted call would have produced
+Would(w, S) ==
+  CASE w.ev = "put"       -> Upd(S, w.slot, w.after)
+    [] w.ev = "many"      -> ApplyBatch(S, w.batch, Len(w.batch))
+    [] w.ev = "del"       -> Rem(S, {w.slot})
+    [] w.ev = "delall"    -> Empty
+    [] w.ev = "delsearch" -> IF WellFormedQ(w.q) THEN Rem(S, MatchesQ(S, w.q)) ELSE S
+    [] OTHER              -> S
+OldOrNew(F, Sm, Sp) == \A u \in DOMAIN F : (u \in DOMAIN Sm /\ F[u] = Sm[u]) \/ (u \in DOMAIN Sp /\ F[u] = Sp[u])
+                                             \/ (wev > 0 /\ Trace[wev].ev = "many" /\ \E i \in 1..Len(Trace[wev].batch) :
+                                                    "after" \in DOMAIN Trace[wev].batch[i] /\ Trace[wev].batch[i].slot = u /\ Trace[wev].batch[i].after = F[u])
+FaultOK(E_, Sm) ==
+  LET o0 == WithRecs(E_.obs0, E_.recs)
+      o1 == WithRecs(E_.obs1, E_.recs)
+      o2 == WithRecs(E_.obs2, E_.recs)
+      o3 == WithRecs(E_.obs3, E_.recs)
+      Sp == Would(Trace[wev], Sm)
+      \* the failed call left no trace: live handle and a fresh handle both report the state before the call
+      silent   == /\ Agree(o0, Sm) /\ E_.load = "ok" /\ Agree(o1, Sm) /\ (~hdr.cfg.async => o1.control = "ok")
+      noticed  == o0.control = "corrupted" \/ E_.load = "corrupted" \/ o1.control = "corrupted"
+      restored == /\ E_.repair = "ok" /\ o2.control = "ok" /\ Readable(o2) /\ Agree(o2, FM(o2))
+                  /\ E_.load3 = "ok" /\ o3.control = "ok" /\ Agree(o3, FM(o2))
+                  /\ 0 \notin DOMAIN FM(o2) /\ OldOrNew(FM(o2), Sm, Sp)
+      \* Known finding (deviation CommitFault): a fault after the object file has been replaced (in the
+      \* schema commit, or in a later object of a batch) makes the call fail although the write is applied
+      \* in memory and on disk; a fresh handle then loads the old index.  What is still demanded:
+      \* readable files, each object old or new, Repair succeeds and everything then agrees with the
+      \* files up to the stale indexed values of rewritten objects.
+      devshape == /\ "CommitFault" \in Dev
+                  /\ Readable(o1) /\ 0 \notin DOMAIN FM(o1) /\ OldOrNew(FM(o1), Sm, Sp)
+                  /\ LoadFine(E_) /\ E_.repair = "ok" /\ o2.control = "ok" /\ FM(o2) = FM(o1)
+                  /\ AgreeStale(o2, FM(o2), Sm) /\ E_.load3 = "ok" /\ o3.control = "ok" /\ AgreeStale(o3, FM(o2), Sm)
+  IN /\ E_.c # "panic" /\ "panic" \notin DOMAIN o0 /\ "panic" \notin DOMAIN o1
+     /\ silent \/ (noticed /\ restored) \/ devshape
+Conf_C06F ==
+  At => (E.ev = "fault" => (E.c # "ok" => FaultOK(E, store)))
+
+\* C19 (file part): whatever a file of the collection directory contains, calls return; none panics
+Conf_C19F ==
+  At => (E.ev = "corrupt" => \A i \in 1..Len(E.res) : E.res[i][2] # "panic")
 
 \* C15 hooks gate every insertion path
 HooksOK(hooks, i, o) ==
